@@ -55,7 +55,7 @@ type AggSpec struct {
 }
 
 type aggRefs struct {
-	deployed, deployed2, pair string
+	deployed, deployed2, pair, twin, twin2 string
 }
 
 func deployERC20(e *env, ctx sdk.Context, name, symbol string, decimals uint8) common.Address {
@@ -81,10 +81,11 @@ func stdMeta(base, display, name, symbol string) banktypes.Metadata {
 }
 
 func aggSetup(e *env, ctx sdk.Context, setup []string) aggRefs {
-	refs := aggRefs{deployed: "0x00000000000000000000000000000000000000d1", deployed2: "0x00000000000000000000000000000000000000d2", pair: "0x00000000000000000000000000000000000000d3"}
+	refs := aggRefs{deployed: "0x00000000000000000000000000000000000000d1", deployed2: "0x00000000000000000000000000000000000000d2", pair: "0x00000000000000000000000000000000000000d3",
+		twin: "0x00000000000000000000000000000000000000d4", twin2: "0x00000000000000000000000000000000000000d5"}
 	k := e.app.AggregateKeeper
 	// coins that exist (have a supply) in every case
-	fund(e, ctx, "", sdk.AccAddress(e.addr.Bytes()), []Pair{{"ucoin", "1000"}, {"uother", "1000"}, {"ibc/27394FB092D2ECCD56123C74F36E4C1F926001CEADA9CA97EA622B25F41E5EB2", "5"}})
+	fund(e, ctx, "", sdk.AccAddress(e.addr.Bytes()), []Pair{{"ucoin", "1000"}, {"uother", "1000"}, {"ucoin2", "7"}, {"ucoin3", "7"}, {"ibc/27394FB092D2ECCD56123C74F36E4C1F926001CEADA9CA97EA622B25F41E5EB2", "5"}})
 	for _, s := range setup {
 		switch s {
 		case "coin":
@@ -101,6 +102,18 @@ func aggSetup(e *env, ctx sdk.Context, setup []string) aggRefs {
 			refs.deployed = a.Hex()
 		case "erc20b":
 			refs.deployed2 = deployERC20(e, ctx, "Other", "OTH", 0).Hex()
+		case "twin":
+			// two identical ERC20 contracts, the first one registered: UpdateTokenPairERC20 from one to the other passes
+			// every comparison (name without characters to sanitize, decimals > 0)
+			a := deployERC20(e, ctx, "twin", "TWN", 6)
+			if _, err := k.RegisterERC20(ctx, a); err != nil {
+				panic("harness setup: " + err.Error())
+			}
+			refs.twin = a.Hex()
+			refs.twin2 = deployERC20(e, ctx, "twin", "TWN", 6).Hex()
+		case "meta":
+			// bank metadata of a coin that is not registered as a token pair (verifyMetadata compares)
+			e.app.BankKeeper.SetDenomMetaData(ctx, stdMeta("uother", "other", "Other Coin", "OC"))
 		case "disable":
 			if c := paramChange(e, ctx, aggtypes.ModuleName, string(aggtypes.ParamStoreKeyEnableAggregate), "false"); c != 0 {
 				panic("harness setup: cannot disable")
@@ -119,6 +132,10 @@ func (r aggRefs) resolve(hexs string) string {
 		return r.deployed2
 	case "@pair":
 		return r.pair
+	case "@twin":
+		return r.twin
+	case "@twin2":
+		return r.twin2
 	case "@pair_lower":
 		return strings.ToLower(r.pair)
 	case "@pair_nox":
